@@ -127,6 +127,11 @@ class Registry:
         name = fn.name
         if name in NOOPS or name.split(".")[-1] in ("warn",):
             return None
+        if name.startswith("estimator.") and fn.self_obj is not None:
+            m = self.methods.get(("estimator", name.split(".", 1)[1]))
+            if m is None:
+                raise Unsupported("estimator method %s" % name)
+            return m(E, fn.self_obj, list(args), dict(kwargs), node)
         f = self.fns.get(name)
         if f is None:
             # aliases: 'sklearn.x.y.Z' -> try last two components
